@@ -151,56 +151,66 @@ one of them raises, clears the list, and re-raises the first error after the loo
 at the raising callback this is false, and the check reports it with a concrete replay.) -/
 theorem callbacks_all_run : Gen.Async.callbacksAllRun = true := by decide
 
-/-- the clause at full strength, for ALL callbacks — returning, raising, re-entrant: when the reply arrives
-the result is ready with its value, every registered callback has run exactly once, in registration order, each
-followed at once by the callbacks it registered from inside itself; nothing stays stored; and an error of a
-callback surfaces in the serving thread (after all have run) -/
+/-- the clause at full strength, for ALL callbacks — returning, raising (whatever the class of the error),
+re-entrant: when the reply arrives the result is ready with its value, every registered callback has run exactly
+once, in registration order, each followed at once by the callbacks it registered from inside itself; nothing
+stays stored.  (Whether a callback's error then surfaces in the serving thread or is kept from it is not part of
+the statement: `propagates` is left free.) -/
 def C15_callbacks_clause : Prop :=
-  ∀ (now : Nat) (cbs : List Cb) (e : Bool) (v : Nat),
-    callR Gen.Async.callbacksAllRun false now cbs e v
-      = ⟨true, some e, some v, cbs.flatMap (fun x => (x.id, now) :: x.adds.map (fun a => (a, now))), [],
-         cbs.any Cb.raises⟩
+  ∀ (propagates : Bool) (now : Nat) (cbs : List Cb) (e : Bool) (v : Nat),
+    (callR Gen.Async.callbacksAllRun propagates false now cbs e v).isReady = true
+    ∧ (callR Gen.Async.callbacksAllRun propagates false now cbs e v).isExc = some e
+    ∧ (callR Gen.Async.callbacksAllRun propagates false now cbs e v).obj = some v
+    ∧ (callR Gen.Async.callbacksAllRun propagates false now cbs e v).log
+        = cbs.flatMap (fun x => (x.id, now) :: x.adds.map (fun a => (a, now)))
+    ∧ (callR Gen.Async.callbacksAllRun propagates false now cbs e v).stored = []
 
 /-- **Every registered callback runs exactly once, in order — raising ones included.** -/
 theorem C15_callbacks : C15_callbacks_clause := by
-  intro now cbs e v
+  intro p now cbs e v
   rw [callbacks_all_run]
   simp [callR, runAll_spec]
 
-/-- what the clause rests on: with the loop that stops at a raising callback (`allRun = false`, the code before
-the repair) it fails — register a callback that raises and then a second one: the second never runs, although
-the result is ready and the value published, and both stay stored -/
+/-- what the clause rests on: with the loop that stops at a raising callback (`allRun = false`) it fails — the
+callback registered after a raising one never runs, although the result is ready, and both stay stored -/
 theorem callbacks_lost_without_all_run :
-    callR false false 5 [⟨1, true, []⟩, ⟨2, false, []⟩] false 7 = ⟨true, some false, some 7, [(1, 5)], [1, 2], true⟩
-      ∧ callR true false 5 [⟨1, true, []⟩, ⟨2, false, []⟩] false 7 = ⟨true, some false, some 7, [(1, 5), (2, 5)], [], true⟩ := by
+    callR false true false 5 [⟨1, true, []⟩, ⟨2, false, []⟩] false 7 = ⟨true, some false, some 7, [(1, 5)], [1, 2], true⟩
+      ∧ callR true true false 5 [⟨1, true, []⟩, ⟨2, false, []⟩] false 7
+          = ⟨true, some false, some 7, [(1, 5), (2, 5)], [], true⟩ := by
   decide
 
-/-- either loop, callbacks that do not raise (they may re-enter): all run, in order, list cleared, nothing
-propagates — the two loops differ only when a callback raises -/
-theorem callbacks_without_raiser (allRun : Bool) (now : Nat) (cbs : List Cb) (e : Bool) (v : Nat)
-    (h : ∀ c ∈ cbs, c.raises = false) :
-    callR allRun false now cbs e v
-      = ⟨true, some e, some v, cbs.flatMap (fun x => (x.id, now) :: x.adds.map (fun a => (a, now))), [], false⟩ := by
-  have hany : cbs.any Cb.raises = false := by
-    rw [List.any_eq_false]; intro c hc; simp [h c hc]
-  cases allRun with
-  | true => simp [callR, runAll_spec, hany]
-  | false => simp [callR, runCbs_noraise now cbs [] h]
+/-! ### (2c) a callback registered while another thread publishes the reply -/
 
-/-- with plain callbacks `callR` is the `call` of the single-request worlds (whichever loop) -/
-theorem callR_plain_is_call (allRun : Bool) (w : World) (e : Bool) (v : Nat) (hx : w.ar.expired w.now = false) :
-    (call w e v).cbLog
-        = w.cbLog ++ (callR allRun false w.now (w.ar.callbacks.map (fun c => ⟨c, false, []⟩)) e v).log
-      ∧ (call w e v).ar.callbacks = (callR allRun false w.now (w.ar.callbacks.map (fun c => ⟨c, false, []⟩)) e v).stored
-      ∧ (call w e v).ar.isReady = true := by
-  have h : ∀ c ∈ w.ar.callbacks.map (fun c => (⟨c, false, []⟩ : Cb)), c.raises = false := by
-    intro c hc; simp at hc; obtain ⟨_, _, rfl⟩ := hc; rfl
-  rw [callbacks_without_raiser _ _ _ _ _ h]
-  have hm : ∀ l : List Nat, List.map (fun c => (c, w.now)) l = List.flatMap (fun a => [(a, w.now)]) l := by
-    intro l; induction l with
-    | nil => rfl
-    | cons a t ih => simp [ih]
-  simp [call, hx, List.flatMap_map, hm]
+/-- **obligation on the source** (measured on every run): `add_callback`'s test-and-append and `__call__`'s
+set-ready-and-take-the-list exclude each other. -/
+theorem add_callback_atomic : Gen.Async.addCallbackAtomic = true := by decide
+
+/-- the clause: a registration that races with the publication is one of the two serial orders — here "register,
+then publish" — so everything proved about event sequences applies to it: the callback runs exactly once -/
+def C15_racing_registration_clause : Prop :=
+  ∀ (w : World) (c : Nat) (e : Bool) (v : Nat),
+    addCallbackRace Gen.Async.addCallbackAtomic w c e v = runs w [.addCallback c, .arrive e v]
+
+theorem C15_racing_registration : C15_racing_registration_clause := by
+  intro w c e v
+  rw [add_callback_atomic]
+  have hs : (addCallback w c).seq = w.seq := by unfold addCallback; split <;> rfl
+  simp [addCallbackRace, runs, step, hs]
+
+/-- without the exclusion the clause fails: on a fresh pending request, the callback registered during the
+publication is stored in a result that is already ready and never runs (no log entry) — whereas the serial order
+runs it at the arrival instant -/
+theorem racing_registration_lost_without_exclusion :
+    (addCallbackRace false (World.init 3) 1 false 7).ar.isReady = true
+      ∧ (addCallbackRace false (World.init 3) 1 false 7).ar.callbacks = [1]
+      ∧ (addCallbackRace false (World.init 3) 1 false 7).cbLog = []
+      ∧ (runs (World.init 3) [.addCallback 1, .arrive false 7]).cbLog = [(1, 3)]
+      ∧ ¬ Inv (addCallbackRace false (World.init 3) 1 false 7) := by
+  refine ⟨by decide, by decide, by decide, by decide, ?_⟩
+  intro h
+  have := (h (by decide)).1
+  revert this
+  decide
 
 /-! ### (3) waiting raises the timeout error at the expiry instant -/
 
@@ -343,10 +353,12 @@ theorem multi_expired_final (mw : MWorld) (es : List MEv) (k : Nat) (v : World) 
 
 /-! ### generated facts about the source (regenerated from /repo on every run) -/
 
-/-- the slots of `AsyncResult` are exactly the state the model has: `_is_ready`, `_is_exc`, `_obj`,
-`_callbacks`, `_ttl` (the fields of `AR`) and `_conn` (the surrounding `World`); a new slot is new state -/
+/-- guard (not a property): the slots of `AsyncResult`, in any order, are exactly the state the model has:
+`_is_ready`, `_is_exc`, `_obj`, `_callbacks`, `_ttl` (the fields of `AR`), `_conn` (the surrounding `World`) and
+`_lock` (the exclusion that `addCallbackRace`'s `atomic` stands for); another slot is state the model lacks.
+State kept elsewhere (on the `Timeout`, the connection, a base class) is not seen by this guard. -/
 theorem slots_are_modelled :
-    Gen.Async.slots = ["_conn", "_is_ready", "_is_exc", "_callbacks", "_obj", "_ttl"] := by decide
+    Gen.Async.slots = ["_callbacks", "_conn", "_is_exc", "_is_ready", "_lock", "_obj", "_ttl"] := by decide
 
 /-- with the *default* configuration (`sync_request_timeout` as found in the source) a synchronous request
 that fails with the timeout error does so no earlier than that many ticks after it was issued -/
